@@ -489,6 +489,34 @@ Definition current_route_path c e routes rname matched matchdict get els o kw : 
   rlet a := path_app_url current_route_path_script_quoted e in
   current_route_url c e routes rname matched matchdict get els (set_app_url o a) kw.
 
+(* ------------------------------------------------------------------ vocabulary of the translator
+   (harness/c17/translate.py, PRIMITIVE TABLE): the definitions regenerated from the source into
+   Gen/Code_C17.v consist of control flow over the functions above and these projections *)
+Definition onone {A} (o : option A) : bool := match o with None => true | Some _ => false end.
+Definition oget (o : option text) : text := match o with Some t => t | None => [] end.
+Definition otruthy (o : option text) : bool := match o with Some (_ :: _) => true | _ => false end.
+Definition ttruthy (t : text) : bool := match t with [] => false | _ => true end.
+Definition is_str (v : pval) : bool := match v with PStr _ => true | _ => false end.
+Definition is_bytes (v : pval) : bool := match v with PBytes _ => true | _ => false end.
+Definition str_text (v : pval) : text := match v with PStr t => t | _ => [] end.
+Definition bytes_of (v : pval) : text := match v with PBytes b => b | _ => [] end.
+(* str(v) of a value that is neither str nor bytes *)
+Definition pstr (v : pval) : text := match v with PInt z => show_Z z | PNum _ s => s | _ => [] end.
+Definition qv_iter (v : qval) : bool := match v with QVSeq _ | QVScalar (PBytes _) => true | _ => false end.
+Definition qv_items (v : qval) : list pval :=
+  match v with QVSeq l => l | QVScalar (PBytes b) => map (fun c => PInt (Z.of_N c)) b | _ => [] end.
+Definition qv_none (v : qval) : bool := match v with QVNone => true | _ => false end.
+Definition qv_scalar (v : qval) : pval := match v with QVScalar x => x | _ => PStr [] end.
+Definition ov_query (o : overrides) : query := match o_query o with Some q => q | None => QStr [] end.
+Definition ov_anchor (o : overrides) : pval := match o_anchor o with Some v => v | None => PStr [] end.
+Definition q_is_str (q : query) : bool := match q with QStr _ => true | QPairs _ => false end.
+Definition q_text (q : query) : text := match q with QStr t => t | QPairs _ => [] end.
+Definition q_pairs (q : query) : list (pval * qval) := match q with QPairs l => l | QStr _ => [] end.
+Definition partial_application_url (e : env) (s h p : option text) : res text :=
+  rlet sn := quoted_script_name e in Ok (partial_host_url e s h p ++ sn).
+Definition application_url (e : env) : res text :=
+  rlet sn := quoted_script_name e in Ok (webob_host_url e ++ sn).
+
 (* ------------------------------------------------------------------ reference decoder (urllib.parse) *)
 Fixpoint lstrip_c0 (s : text) : text :=
   match s with x :: r => if x <=? 32 then lstrip_c0 r else s | [] => [] end.
